@@ -140,14 +140,23 @@ where
         I: IntoIterator<Item = (S, P)>,
     {
         let mut population_map = population::Map::default();
-        let mut map = IndexMap::new();
 
-        for (sample_name, population_name) in iter {
-            // A sample listed more than once keeps its first population; in particular, a
-            // repeated sample must not register a population that ends up without samples
-            if let indexmap::map::Entry::Vacant(entry) = map.entry(sample_name.into()) {
-                entry.insert(population_map.get_or_insert(population_name.into()));
-            }
+        // A sample listed more than once keeps its place in the list and takes its last population
+        let mut map =
+            IndexMap::from_iter(iter.into_iter().map(|(sample_name, population_name)| {
+                (
+                    sample_name.into(),
+                    population_map.get_or_insert(population_name.into()),
+                )
+            }));
+
+        // That may leave a population without any sample: drop it, so that the population ids
+        // remain the contiguous range that the shape is built from
+        let mut used = Vec::from_iter(map.values().map(|id: &population::Id| id.0));
+        used.sort_unstable();
+        used.dedup();
+        for id in map.values_mut() {
+            id.0 = used.binary_search(&id.0).unwrap_or(id.0);
         }
 
         Self(map)
